@@ -215,7 +215,8 @@ def work(case):
     out["host_content_in_results"] = bool(blob) and any(mark in blob for mark in _host_marks())
     # entries without a data stream shift the size table of a 7z header: which bytes land in which member is then undefined
     # (still the archive's own bytes), so member-level expectations are only judged for consistent archives
-    consistent = not any(m.get("phantom") for m in members) and not case.get("mutate")
+    # (a NUL inside a 7z name ends the name early and shifts all later names: same situation)
+    consistent = not any(m.get("phantom") for m in members) and not case.get("mutate") and not (archives.family(layout) == "7z" and any("\x00" in m["name"] for m in members))
     out["skipped_member_in_results"] = [t for t in expect_skip if t in blob] if consistent else []
     out["oversize_in_results"] = bool(oversize_tok and oversize_tok in blob) if consistent else False
     out["result_names"] = names[:12]
